@@ -131,7 +131,8 @@ def verify(contract, scratch, tucache):
         entry = st.copy()
         ex.entry = entry
         cx0._old = entry
-        ex.assigns = [normalise_target(t) for t in contract.assigns(Ctx(ex, entry, entry, args))]
+        cxe = Ctx(ex, entry, entry, args)
+        ex.assigns = [(t[0], cxe.R(t[1]) if not t[1].endswith('*') else t[1]) + tuple(t[2:]) for t in map(normalise_target, contract.assigns(cxe))]
         # constructors: member initialisers first
         inits = ctor_inits(fn)
         if inits:
@@ -139,6 +140,8 @@ def verify(contract, scratch, tucache):
         outs = ex.exec(body(fn), st)
         nposts = 0
         for (s, flow) in outs:
+            if flow is not None and flow[0] == 'throw':
+                continue        # abnormal exit: no postcondition, frame already checked at the writes
             if flow is not None and flow[0] != 'ret':
                 raise ExtractionError(f'{contract.name}: stray {flow[0]}')
             ret = flow[1] if flow else None
@@ -273,6 +276,9 @@ class Use:
                 vals.append(ex.lv(a, st))
             else:
                 vals.append(ex.ev(a, st))
+        if this and this != 'this':
+            # caller objects literally named this... must not be confused with the callee's `this`
+            vals = [ObjRef('=' + v.name, v.cls, v.null) if isinstance(v, ObjRef) and (v.name == 'this' or v.name.startswith('this.')) else v for v in vals]
         args = dict(zip(c.params, vals))
         tags = self.tags if self.tags is not None else ex.default_tags
         pre = st.copy()
@@ -290,6 +296,7 @@ class Use:
         # havoc frame
         for t in c.assigns(cx):
             t = normalise_target(t)
+            t = (t[0], cx.R(t[1])) + tuple(t[2:])
             if t[0] == 's':
                 if t[1] in st.scal:
                     st.scal[t[1]] = ex.havoc_val(st, st.scal[t[1]], t[1])
@@ -303,6 +310,13 @@ class Use:
                         ex.frame_range(st, region, I(0), st.len_of(region))
                 else:
                     lo, hi = t[2], t[3]
+                    if not any(key[0] == region for key in st.arr):
+                        # contents never looked at so far: materialise the known leaves so that the frame can be kept
+                        for (rg, lf), lct in list(st.leafct.items()):
+                            if rg == region:
+                                st.array(region, lf, lct)
+                    if not any(key[0] == region for key in st.arr):
+                        st.havoc_region(region)        # over-approximation: nothing known about its leaves yet
                     for key in list(st.arr):
                         if key[0] == region:
                             a = st.arr[key]
